@@ -19,7 +19,7 @@ def orderLt (mode : Nat) (a b : Nat) : Bool :=
 
 structure Cfg where
   kind : Nat               -- 0 set, 1 multiset, 2 map, 3 multimap
-  p : Params Nat
+  p : Params Nat           -- `lt` is filled in per register (the comparator object travels with the container)
 
 def Cfg.isMap (c : Cfg) : Bool := c.kind ≥ 2
 
@@ -27,9 +27,15 @@ structure St where
   cfg : Option Cfg := none
   t0 : T := {}
   t1 : T := {}
+  m0 : Nat := 0            -- key order (`key_less_`) currently held by register 0
+  m1 : Nat := 0
 
 def St.get (s : St) (r : Nat) : T := if r = 0 then s.t0 else s.t1
 def St.set (s : St) (r : Nat) (t : T) : St := if r = 0 then { s with t0 := t } else { s with t1 := t }
+def St.mode (s : St) (r : Nat) : Nat := if r = 0 then s.m0 else s.m1
+def St.setMode (s : St) (r : Nat) (m : Nat) : St := if r = 0 then { s with m0 := m } else { s with m1 := m }
+/-- template parameters + the comparator of register `r` -/
+def St.params (s : St) (c : Cfg) (r : Nat) : Params Nat := { c.p with lt := orderLt (s.mode r) }
 
 /-! ### printing -/
 
@@ -138,13 +144,13 @@ def sortedFor (p : Params Nat) : List Ent → Bool
 
 /-- operations with a fixed number of arguments -/
 def stepFixed (c : Cfg) (s : St) (ts : List String) : Option (St × String) :=
-  let p := c.p
   let isMap := c.isMap
   let fail : Option (St × String) := some (s, "MODEL-UB")
   match ts with
   | [op, r, a, b] =>
     match reg r, num a, num b with
     | some r, some k, some v =>
+      let p := s.params c r
       if op = "ins" ∨ op = "insh" ∨ op = "ins2" then
         if op = "ins2" ∧ !isMap then none else
         let v := if isMap then v else 0
@@ -159,6 +165,7 @@ def stepFixed (c : Cfg) (s : St) (ts : List String) : Option (St × String) :=
     match reg r with
     | none => none
     | some r =>
+      let p := s.params c r
       let t := s.get r
       let ch := t.leafChain
       if op = "copy" ∨ op = "assign" ∨ op = "swap" ∨ op = "tswap" ∨ op = "cmp" then
@@ -170,11 +177,11 @@ def stepFixed (c : Cfg) (s : St) (ts : List String) : Option (St × String) :=
             if q = r then none else
             let (_, l1) := clear t                    -- destructor of the old object
             let (t', l2) := copyCtor o
-            some (mutAnswer c (s.set r t') "copy" (l1.add l2))
+            some (mutAnswer c ((s.set r t').setMode r (s.mode q)) "copy" (l1.add l2))
           else if op = "assign" then
             if q = r then some (mutAnswer c s "assign" {}) else
             let (t', l) := assign t o
-            some (mutAnswer c (s.set r t') "assign" l)
+            some (mutAnswer c ((s.set r t').setMode r (s.mode q)) "assign" l)
           else if op = "swap" then
             -- std::swap(tree_, from.tree_): tmp(a); a = b; b = tmp; ~tmp
             let (tmp, l1) := copyCtor t
@@ -186,9 +193,10 @@ def stepFixed (c : Cfg) (s : St) (ts : List String) : Option (St × String) :=
               let (a', l2) := assign t o
               let (b', l3) := assign o tmp
               let (_, l4) := clear tmp
-              some (mutAnswer c ((s.set r a').set q b') "swap" (((l1.add l2).add l3).add l4))
+              some (mutAnswer c ((((s.set r a').set q b').setMode r (s.mode q)).setMode q (s.mode r)) "swap"
+                (((l1.add l2).add l3).add l4))
           else if op = "tswap" then
-            some (mutAnswer c ((s.set r o).set q t) "tswap" {})
+            some (mutAnswer c ((((s.set r o).set q t).setMode r (s.mode q)).setMode q (s.mode r)) "tswap" {})
           else
             let x := t.toList
             let y := o.toList
@@ -299,7 +307,6 @@ def stepFixed (c : Cfg) (s : St) (ts : List String) : Option (St × String) :=
   | _ => none
 
 def stepOp (c : Cfg) (s : St) (ts : List String) : Option (St × String) :=
-  let p := c.p
   let isMap := c.isMap
   let fail : Option (St × String) := some (s, "MODEL-UB")
   match ts with
@@ -307,6 +314,7 @@ def stepOp (c : Cfg) (s : St) (ts : List String) : Option (St × String) :=
     if op = "bulk" ∨ op = "insr" ∨ op = "rctor" then
       match reg r, rest.mapM (parseEnt isMap) with
       | some r, some es =>
+        let p := s.params c r
         let t := s.get r
         if op = "bulk" then
           if t.stats.size ≠ 0 ∨ !sortedFor p es then none else
@@ -330,16 +338,22 @@ def stepOp (c : Cfg) (s : St) (ts : List String) : Option (St × String) :=
 def slotPairs : List (Nat × Nat) :=
   [(4, 4), (5, 5), (6, 6), (7, 7), (8, 8), (16, 16), (4, 7), (7, 4), (5, 16), (16, 5)]
 
-def parseCfg (ts : List String) : Option Cfg :=
+/-- `cfg <kind> <leaf> <inner> <binsearch> <order of register 0> [<order of register 1>]` -/
+def parseCfg (ts : List String) : Option (Cfg × Nat × Nat) :=
   match ts with
-  | [kind, l, i, bin, mode] =>
+  | kind :: l :: i :: bin :: mode :: rest =>
     let kd : Option Nat := match kind with
       | "set" => some 0 | "mset" => some 1 | "map" => some 2 | "mmap" => some 3 | _ => none
-    match kd, l.toNat?, i.toNat?, bin.toNat?, mode.toNat? with
-    | some kd, some l, some i, some bin, some mode =>
-      if mode > 2 ∨ !(slotPairs.contains (l, i)) then none
-      else some { kind := kd, p := { leafMax := l, innerMax := i, bin := bin ≠ 0, dup := kd % 2 = 1, lt := orderLt mode } }
-    | _, _, _, _, _ => none
+    let mode1 : Option Nat := match rest with
+      | [] => mode.toNat?
+      | [m1] => m1.toNat?
+      | _ => none
+    match kd, l.toNat?, i.toNat?, bin.toNat?, mode.toNat?, mode1 with
+    | some kd, some l, some i, some bin, some mode, some mode1 =>
+      if mode > 2 ∨ mode1 > 2 ∨ !(slotPairs.contains (l, i)) then none
+      else some ({ kind := kd, p := { leafMax := l, innerMax := i, bin := bin ≠ 0, dup := kd % 2 = 1, lt := orderLt mode } },
+                 mode, mode1)
+    | _, _, _, _, _, _ => none
   | _ => none
 
 def step (s : St) (ts : List String) : St × String :=
@@ -349,7 +363,7 @@ def step (s : St) (ts : List String) : St × String :=
     | some _ => (s, "bad-op")
     | none =>
       match parseCfg rest with
-      | some c => ({ cfg := some c }, "cfg")
+      | some (c, m0, m1) => ({ cfg := some c, m0 := m0, m1 := m1 }, "cfg")
       | none => (s, "bad-op")
   | _ =>
     match s.cfg with
